@@ -306,6 +306,14 @@ pub fn case(seed: u64, i: usize) -> Case {
             let tail = INVALID_TAILS[r.below(INVALID_TAILS.len())];
             let more = if r.chance(1, 3) { "rule last { c exists }\n" } else { "" };
             rules = format!("{}{}{}{}", HEADERS[r.below(HEADERS.len())], base, tail, more);
+            if r.chance(1, 3) {
+                // the error comes early and a long run of multi-byte characters follows it (diagnostics
+                // quote what follows the error position)
+                let pad = " ".repeat(r.below(4));
+                let wide = ["日", "é", "😀"][r.below(3)];
+                rules = format!("{}rule {{ a exists }}\n{}# {}\nrule ok {{ a == \"{}\" }}\n{}",
+                                HEADERS[r.below(HEADERS.len())], pad, wide.repeat(90 + r.below(40)), wide.repeat(60), base);
+            }
             known_invalid = true;
         }
         "deep" => {
